@@ -248,7 +248,7 @@ func buildDescriptor(m *gMsg) protoreflect.MessageDescriptor {
 
 // ---- values -----------------------------------------------------------------
 
-var strPool = []string{"", "a", "b", "ab", "hello", " ", "a  b", "\x00", "ÿ", "值", "x\ny", "2021-01-01T00:00:00Z", "zz", "a\u3000b", " lead", "trail ", "tab\there", "q\"uote", "back\\slash", "1970-01-01T00:00:00+08:00", "C:\\data\\", "\\", "two  blanks", "ends\\\"q",
+var strPool = []string{"", "a", "b", "ab", "hello", " ", "line\n", "cr\r", "crlf\r\n", "\n", "a  b", "\x00", "ÿ", "值", "x\ny", "2021-01-01T00:00:00Z", "zz", "a\u3000b", " lead", "trail ", "tab\there", "q\"uote", "back\\slash", "1970-01-01T00:00:00+08:00", "C:\\data\\", "\\", "two  blanks", "ends\\\"q",
 	// long values (a pretty printer may wrap them): every word boundary is a run of blanks or a non-ASCII space
 	strings.Repeat("lorem  ipsum\u3000dolor  ", 12), strings.Repeat("ab  ", 60), strings.Repeat("x\u00a0y z  ", 30)}
 
@@ -284,13 +284,13 @@ func genScalar(r *rand.Rand, kind string, nonzero bool) protoreflect.Value {
 		zero := false
 		switch kind {
 		case "i32":
-			x := []int32{0, 1, -1, 7, math.MaxInt32, math.MinInt32, 42}[r.Intn(7)]
+			x := []int32{0, 1, -1, 7, math.MaxInt32, math.MinInt32, 42, 10, 13}[r.Intn(9)] // 10 / 13: wire bytes 0a / 0d
 			v, zero = protoreflect.ValueOfInt32(x), x == 0
 		case "i64":
-			x := []int64{0, 1, -1, math.MaxInt64, math.MinInt64, 1 << 40}[r.Intn(6)]
+			x := []int64{0, 1, -1, math.MaxInt64, math.MinInt64, 1 << 40, 10, 13}[r.Intn(8)]
 			v, zero = protoreflect.ValueOfInt64(x), x == 0
 		case "u32":
-			x := []uint32{0, 1, 2, math.MaxUint32, 99}[r.Intn(5)]
+			x := []uint32{0, 1, 2, math.MaxUint32, 99, 10, 13}[r.Intn(7)]
 			v, zero = protoreflect.ValueOfUint32(x), x == 0
 		case "u64":
 			x := []uint64{0, 1, math.MaxUint64, 1 << 63}[r.Intn(4)]
